@@ -68,6 +68,7 @@ def niFormula (r : Nat) : Nat := min 10000 (45 * r ^ 2)
 
 /-- band_update_stats observed: `pre`, `post` -/
 def holdsC13Update (pre post : Band) : Bool :=
+  decide (post.r = 0) &&          -- r counts the Hellos of ONE block: every block end restarts it
   (if pre.r > 0 ∧ pre.begun then decide (post.ni = niFormula pre.r) else decide (post.ni = pre.ni)) &&
   (if 45 ≤ pre.ni ∧ pre.ni ≤ 10000 then decide (45 ≤ post.ni ∧ post.ni ≤ 10000) else true)
 
